@@ -290,10 +290,10 @@ delegate, None / "Cannot modify the constant" for a constant without default,
 TraitError for a container default without handler.  The correspondence
 (`T|…;probe`) compares exactly these with the real extension. -/
 theorem C18_bare_kinds_answered :
-    (∃ t, traitNew 3 = some t ∧ probeGet ⟨t, false, 0⟩ = .traitError ∧ probeSet ⟨t, false, 0⟩ = .traitError ∧
-      probeDel ⟨t, false, 0⟩ = .traitError) ∧
-    (∃ t, traitNew 7 = some t ∧ probeGet ⟨t, false, 0⟩ = .ok ∧ probeSet ⟨t, false, 0⟩ = .traitError) ∧
-    (∃ t, traitNew 0 = some t ∧ ∀ k ∈ [5, 6, 9], probeGet ⟨t, false, k⟩ = .traitError) := by
+    (∃ t, traitNew 3 = some t ∧ probeGet { fns := t } = .traitError ∧ probeSet { fns := t } = .traitError ∧
+      probeDel { fns := t } = .traitError) ∧
+    (∃ t, traitNew 7 = some t ∧ probeGet { fns := t } = .ok ∧ probeSet { fns := t } = .traitError) ∧
+    (∃ t, traitNew 0 = some t ∧ ∀ k ∈ [5, 6, 9], probeGet { fns := t, dvt := k } = .traitError) := by
   decide
 
 /-! Non-vacuity: the hypotheses above are met by real, non-trivial traits. -/
